@@ -168,7 +168,7 @@ def gen_cfg(rng: common.Rng, kind: str | None = None) -> dict[str, Any]:
         dout = [n for n in out_names if rng.chance(0.6)] or [out_names[0]]
     else:
         din, dout = ([], out_names) if rng.chance(0.5) else (in_names, [])
-    sparse = [[o, i] for o in out_names for i in in_names if rng.chance(0.25)]
+    sparse = [[o, i, rng.pick(["csr", "csr", "csc", "coo"])] for o in out_names for i in in_names if rng.chance(0.25)]
     return {
         "kind": kind,
         "tol": tol,
@@ -1131,6 +1131,8 @@ def account(res: Result, cfg, ops, run: Run, scope: bool) -> None:
         res.count("self-coupled")
     if cfg["sparse"]:
         res.count("sparse-jacobian")
+        for blk in cfg["sparse"]:
+            res.count("sparse-format=" + (blk[2] if len(blk) > 2 else "csr"))
     if cfg["sj"]:
         res.count("run-sets-jacobian")
     for op in ops:
